@@ -426,10 +426,16 @@ def extract(prop_id, driver, extra_ml=()):
 
 def _extract_requires(txt):
     res = []
-    for m in re.finditer(r"HV\.([A-Za-z0-9_.]+)", txt):
-        p = m.group(1).replace(".", "/") + ".v"
-        if os.path.exists(os.path.join(COQ, p)):
+    txt = _strip_coq_comments(txt)
+    names = re.findall(r"HV\.([A-Za-z0-9_.]+)", txt)
+    for m in re.finditer(r"From\s+HV\s+Require\s+(?:Import|Export)?\s*([^.]*(?:\.[A-Za-z][^.]*)*)\.\s", txt):
+        names += m.group(1).split()
+    for n in names:
+        p = n.strip().rstrip(".").replace(".", "/") + ".v"
+        if os.path.exists(os.path.join(COQ, p)) and p not in res:
             res.append(p)
+    if not res:
+        raise RuntimeError("cannot find the model files required by the extraction file")
     return res
 
 
